@@ -36,11 +36,49 @@ var retCases = []retCase{
 	{name: "local-via-callee-var", body: "let a: i32 = 5; let q: {RT} = {ID}({R}a); return q;", ctrl: "let a: i32 = 5; let q: {RT} = {ID}(p); return q;"},
 	{name: "local-via-callee", body: "let a: i32 = 5; return {ID}({R}a);", ctrl: "let a: i32 = 5; return {ID}(p);"},
 	// must-accept: the result refers to storage of the caller
+	// (the product local-declaration-form x route is appended by init below)
 	{name: "param", body: "return p;"},
 	{name: "param-field", pOfS: true, body: "return {R}p.B;"},
 	{name: "param-via-callee", body: "return {ID}(p);"},
 	{name: "param-via-var", body: "let q: {RT} = p; return q;"},
 	{name: "param-field-via-var", pOfS: true, body: "let q: {RT} = {R}p.B; return q;"},
+}
+
+// Every way a function can own storage x every route by which a reference to it can reach the
+// `return`. {P} is the place inside the owned storage, the declaration makes it hold 5.
+func init() {
+	type own struct{ name, decl, place, params, args, tail string }
+	owns := []own{
+		{"uninit-let", "let a: i32; a = 5;", "a", "", "", ""},
+		{"inferred-let", "let a := 5;", "a", "", "", ""},
+		{"uninit-struct", "let t: S; t.B = 5;", "t.B", "", "", ""},
+		{"local-from-param", "let a: i32 = p;", "a", "", "", ""},
+		{"nested-block", "{ let a: i32 = 5; {RET} }", "a", "", "", ""},
+		{"while-body", "let n: i32 = 0; while n < 1 { let a: i32 = 5; n = n + 1; {RET} }", "a", "", "", " return p;"},
+		{"for-variable", "for a in 5..6 { {RET} }", "a", "", "", " return p;"},
+		{"match-arm", "match c { 1 => { let a: i32 = 5; {RET} } _ => { } }", "a", ", c: i32", ", 1", " return p;"},
+		{"else-branch", "if c > 1 { } else { let a: i32 = 5; {RET} }", "a", ", c: i32", ", 1", " return p;"},
+		{"value-param-elem", "", "v[1]", ", v: [2]i32", ", [4, 5]", ""},
+		{"value-param-assigned", "v = 5;", "v", ", v: i32", ", 7", ""},
+	}
+	routes := []struct{ name, ret string }{
+		{"direct", "return {R}{P};"},
+		{"via-var", "let q: {RT} = {R}{P}; return q;"},
+		{"via-callee", "return {ID}({R}{P});"},
+		{"via-callee-var", "let q: {RT} = {ID}({R}{P}); return q;"},
+	}
+	for _, o := range owns {
+		for _, rt := range routes {
+			mk := func(ret string) string {
+				ret = strings.ReplaceAll(ret, "{P}", o.place)
+				if strings.Contains(o.decl, "{RET}") {
+					return strings.Replace(o.decl, "{RET}", ret, 1) + o.tail
+				}
+				return strings.TrimSpace(o.decl+" "+ret) + o.tail
+			}
+			retCases = append(retCases, retCase{name: o.name + "/" + rt.name, params: o.params, args: o.args, body: mk(rt.ret), ctrl: mk("return p;")})
+		}
+	}
 }
 
 // retProgram: the declaration of f<sfx> and the body of the function that calls it.
